@@ -73,11 +73,11 @@ type fsmServer struct {
 	blocking uint64
 }
 
-func (f *fsmServer) ConsistentRead() error                 { return nil }
-func (f *fsmServer) DecrementBlockingQueries() uint64      { f.blocking--; return f.blocking }
-func (f *fsmServer) IncrementBlockingQueries() uint64      { f.blocking++; return f.blocking }
-func (f *fsmServer) GetShutdownChannel() chan struct{}     { return f.shutdown }
-func (f *fsmServer) GetState() *state.Store                { return f.c.L.State() }
+func (f *fsmServer) ConsistentRead() error             { return nil }
+func (f *fsmServer) DecrementBlockingQueries() uint64  { f.blocking--; return f.blocking }
+func (f *fsmServer) IncrementBlockingQueries() uint64  { f.blocking++; return f.blocking }
+func (f *fsmServer) GetShutdownChannel() chan struct{} { return f.shutdown }
+func (f *fsmServer) GetState() *state.Store            { return f.c.L.State() }
 func (f *fsmServer) RPCQueryTimeout(d time.Duration) time.Duration {
 	if d <= 0 {
 		return 5 * time.Minute
@@ -318,4 +318,3 @@ func (C06) execute(p *Plan, r *simkit.Run) *simkit.Violation {
 	r.Nontrivial = len(c.Log) >= 3
 	return nil
 }
-
